@@ -1,9 +1,11 @@
+\* thorough tier, metric ORDER stratum: every order x every rotation of the kind-distinct cubes,
+\* all deltas, a 2 x 1 problem (targets vary instead of sensors)
 SPECIFICATION Spec
-CONSTANTS NT = 1 NS = 3 Kinds = {"sum", "cost"}
+CONSTANTS NT = 2 NS = 1 Kinds = {"sum", "cost", "combined"}
 CONSTANT MetricVals <- ValsQuick
 CONSTANT Deltas <- DeltasAll
-CONSTANT FullOrders <- DocOrdersOnly
-CONSTANT Rotations <- RotQuick
+CONSTANT FullOrders <- NoOrders
+CONSTANT Rotations <- RotAll
 CONSTANT Deviation = "none"
 INVARIANT RewardIsDocumentedCombination
 INVARIANT NormalisedByKind
